@@ -52,14 +52,11 @@ theorem denotation_exact (t : Str) (hs : goStr t = t) (rt : RT) (hp : parseText 
 theorem string_literal_eq (s : List Item) (h : loneEsc s = false) : goCombine s = s.map Item.unit :=
   goCombine_eq s h
 
-/-- `reviver_order_partial`: for EVERY reviver function and every parsed value in which no object has
-    two or more properties (arrays of any length, any nesting) builtinJSONReviveWalk makes exactly
-    the calls ES5 15.12.2 Walk makes — bottom-up, holder/key arguments, element deleted (hole) on
-    undefined and redefined otherwise — in the same order, with the same result.
-    Full statement (not proved; checked by the correspondence stream): for every iteration order of
-    the properties the result and the multiset of calls agree with Walk, provided no object with
-    three or more properties loses one (region parse_reviver_live_order, witness below). -/
-theorem reviver_order_partial (f : Reviver) (fuel : Nat) (name : Str) (v : RV) (h : smallObj v = true) :
+/-- `reviver_order`: for EVERY reviver function and every parsed value (objects have pairwise distinct
+    property names, as every object has) builtinJSONReviveWalk makes exactly the calls ES5 15.12.2
+    Walk makes — bottom-up, holder/key arguments, property or element deleted on undefined and
+    redefined otherwise — in the same order, with the same result, for the property order given. -/
+theorem reviver_order (f : Reviver) (fuel : Nat) (name : Str) (v : RV) (h : distinctKeys v = true) :
     reviveM f fuel name v = Spec.revive f fuel name v :=
   reviveM_eq f fuel name v h
 
@@ -171,12 +168,7 @@ example : C11.jsonParse [123, 34, 98, 34, 58, 110, 117, 108, 108, 44, 34, 97, 34
     ≠ Spec.jsonParse [123, 34, 98, 34, 58, 110, 117, 108, 108, 44, 34, 97, 34, 58, 110, 117, 108, 108, 125] :=
   fun h => absurd (congrArg firstKey h) (by decide +kernel)
 
-def delA : Reviver := fun k v => if k = [97] then none else some v
-def abc : RV := .obj (.cons [97] .null (.cons [98] .null (.cons [99] .null .nil)))
-/-- parse_reviver_live_order: {"a":null,"b":null,"c":null}, reviver deletes "a" (properties visited
-    in the order a, b, c): the call log differs from Walk's (b skipped, c visited twice) -/
-example : (reviveTop delA 9 abc).2 ≠ (Spec.revive delA 9 [] abc).2 := by decide +kernel
-example : smallObj (.arr (.cons (.obj (.cons [97] (.num .nan) .nil)) (.cons .null .nil))) = true := by decide
+example : distinctKeys (.obj (.cons [97] .null (.cons [98] (.arr (.cons (.obj .nil) .nil)) .nil))) = true := by decide
 
 def idNum : FV → Str := fun _ => [48]
 
